@@ -10,6 +10,8 @@ import (
 	"github.com/deckhouse/deckhouse/pkg/log"
 	"k8s.io/apimachinery/pkg/apis/meta/v1/unstructured"
 
+	"k8s.io/client-go/tools/cache"
+
 	"github.com/flant/shell-operator/pkg/filter/jq"
 	kemtypes "github.com/flant/shell-operator/pkg/kube_events_manager/types"
 	"github.com/flant/shell-operator/pkg/metric"
@@ -51,7 +53,7 @@ func VH_C02_monitor_snapshot() {
 	for e := 0; e < n; e++ {
 		se := strconv.Itoa(e)
 		i := zz.Len("object"+se, 0, len(pool)-1)
-		kind := zz.Len("kind"+se, 0, 2)
+		kind := zz.Len("kind"+se, 0, 3)
 		st := zz.OneOf("state"+se, "x", "y")
 		inf := stat
 		if pool[i].ns == "ns-b" {
@@ -67,6 +69,10 @@ func VH_C02_monitor_snapshot() {
 			present[i], state[i] = true, st
 		case 2:
 			inf.OnDelete(o)
+			present[i] = false
+		case 3:
+			// a deletion noticed only by a re-list arrives as a tombstone
+			inf.OnDelete(cache.DeletedFinalStateUnknown{Key: pool[i].ns + "/" + pool[i].name, Obj: o})
 			present[i] = false
 		}
 	}
